@@ -1460,9 +1460,10 @@ impl<'input, T: Input> Scanner<'input, T> {
         self.remove_simple_key()?;
         self.allow_simple_key();
 
-        self.end_implicit_mapping(self.mark);
-        // An explicit key (`?`) in a flow sequence only concerns the entry it is in.
+        // A `,` ends the entry of the innermost flow collection only. If that is a sequence, an
+        // implicit mapping or an explicit key (`?`) in the entry ends with it.
         if let Some((false, _)) = self.flow_collections.last() {
+            self.end_implicit_mapping(self.mark);
             self.flow_mapping_started = false;
         }
 
